@@ -23,14 +23,16 @@ type op struct {
 }
 
 type obs struct {
-	Calls []call `json:"calls"`
-	Size  uint64 `json:"size"`
-	Cmap  []int  `json:"cmap"`
-	Csum  uint64 `json:"csum"` // sum of the sizes recorded in the counters map
-	Dir   []int  `json:"dir"`
-	Dsum  uint64 `json:"dsum"` // sum of the sizes of the files in the cache directory
-	Infl  []int  `json:"infl"`
-	Blob  []int  `json:"blob"`
+	Calls []call  `json:"calls"`
+	Size  uint64  `json:"size"`
+	Cmap  []int   `json:"cmap"`
+	Csum  uint64  `json:"csum"` // sum of the sizes recorded in the counters map
+	Dir   []int   `json:"dir"`
+	Dsum  uint64  `json:"dsum"` // sum of the sizes of the files in the cache directory
+	Infl  []int   `json:"infl"`
+	Blob  []int   `json:"blob"`
+	Held  bool    `json:"held"` // observed while the main storage blocks its calls (not a quiescent point)
+	Pend  [][]int `json:"pend"` // batches of the storage calls in progress (blocked), sorted
 }
 
 type c17Case struct {
@@ -42,8 +44,8 @@ type c17Case struct {
 	Workers int      `json:"workers"`
 	ThrObj  *int     `json:"thr_obj,omitempty"`  // threshold := marshalled size of this object (boundary)
 	MszObjs []int    `json:"msz_objs,omitempty"` // max batch size := sum of these objects' sizes (boundary)
-	Payload []int    `json:"payload"` // requested payload sizes
-	Sizes   []uint64 `json:"sizes"`   // marshalled sizes = what the cache accounts
+	Payload []int    `json:"payload"`            // requested payload sizes
+	Sizes   []uint64 `json:"sizes"`              // marshalled sizes = what the cache accounts
 	Script  []op     `json:"script"`
 	Obs     []obs    `json:"obs"`
 }
@@ -130,6 +132,11 @@ func runC17(cs *c17Case) {
 				fs.failSeq = append(fs.failSeq, b != 0)
 			}
 			fs.mu.Unlock()
+		case "hold":
+			// the main storage stops answering: workers keep their batches in flight, ticks go on
+			fs.hold()
+		case "release":
+			fs.release()
 		case "heal":
 			fs.mu.Lock()
 			fs.failAll = false
@@ -163,6 +170,8 @@ func runC17(cs *c17Case) {
 				}
 			}
 			ob.Calls = fs.takeCalls()
+			ob.Held = fs.isHeld()
+			ob.Pend = fs.pending()
 			cs.Obs = append(cs.Obs, ob)
 		default:
 			panic("unknown op " + o.T)
@@ -174,6 +183,7 @@ func runC17(cs *c17Case) {
 	fs.poison = map[int]bool{}
 	fs.failSeq = nil
 	fs.mu.Unlock()
+	fs.release()
 	must(wc.Close())
 	must(mainSt.Close())
 }
@@ -232,9 +242,68 @@ func genParams(r *rng, cs *c17Case, small, big int) {
 	}
 }
 
+// holdEpisode: the main storage blocks while `ticks` scheduler ticks pass and objects keep coming, then
+// answers again. Rounds begin while workers still hold batches (objects in flight at the snapshot), the
+// scheduler may get stuck handing a batch over (all workers busy) and find a buffered tick afterwards.
+// Starts and ends on the x.5 s grid of the observation points; the storage is healthy (sched kind).
+func holdEpisode(r *rng, cs *c17Case, n int, ticks int) {
+	cs.Script = append(cs.Script, op{T: "hold"}, op{T: "sleep", Ms: 1000, M: "round"}, op{T: "obs"})
+	for k := 1; k < ticks; k++ {
+		np := r.intn(4)
+		for j := 0; j < np; j++ {
+			cs.Script = append(cs.Script, op{T: "put", O: r.intn(n)})
+		}
+		if r.chance(1, 8) {
+			cs.Script = append(cs.Script, op{T: "del", O: r.intn(n)})
+		}
+		cs.Script = append(cs.Script, op{T: "sleep", Ms: 1000, M: "round"}, op{T: "obs"})
+	}
+	// everything that was blocked finishes well within 300 ms (5 ms per storage call); next tick 500 ms after the release
+	cs.Script = append(cs.Script, op{T: "release"}, op{T: "sleep", Ms: 300}, op{T: "obs"},
+		op{T: "sleep", Ms: 700, M: "round"}, op{T: "obs"})
+}
+
+// fixed schedules of the class "a round begins while a worker still holds a batch"
+func fixedHoldCases(id int) []*c17Case {
+	put := func(o int) op { return op{T: "put", O: o} }
+	round := []op{{T: "sleep", Ms: 1000, M: "round"}, {T: "obs"}}
+	tail := []op{{T: "release"}, {T: "sleep", Ms: 300}, {T: "obs"}, {T: "sleep", Ms: 700, M: "round"}, {T: "obs"},
+		{T: "sleep", Ms: 1000, M: "round"}, {T: "obs"}}
+	mk := func(workers, cnt int, payload []int, script ...[]op) *c17Case {
+		cs := &c17Case{ID: id, Kind: "sched", Workers: workers, Payload: payload, Thr: 600, Cnt: cnt, Msz: 8 << 20}
+		id++
+		cs.Script = []op{{T: "sleep", Ms: 500}}
+		for _, p := range script {
+			cs.Script = append(cs.Script, p...)
+		}
+		return cs
+	}
+	return []*c17Case{
+		// big object held by one of two workers; two small objects arrive; next round starts with the big one in flight
+		mk(2, 128, []int{900, 201, 202}, []op{put(0), {T: "obs"}, {T: "hold"}}, round, []op{put(1), put(2)}, round, round, tail),
+		// the same with a single worker: the small batch waits at the hand-over, the tick is buffered
+		mk(1, 128, []int{900, 201, 202}, []op{put(0), {T: "obs"}, {T: "hold"}}, round, []op{put(1), put(2)}, round, round, tail),
+		// more batches than workers: the round is stuck at the hand-over, objects arrive, buffered tick's round
+		// starts while the last batch is still being stored
+		mk(1, 2, []int{201, 202, 203, 204, 205, 900}, []op{put(0), put(1), put(2), put(5), {T: "obs"}, {T: "hold"}}, round,
+			[]op{put(3), put(4)}, round, tail),
+		// small batch in flight, small and big objects arrive in two steps
+		mk(3, 128, []int{201, 202, 203, 204, 900, 901}, []op{put(0), put(1), {T: "obs"}, {T: "hold"}}, round,
+			[]op{put(2), put(4)}, round, []op{put(3), put(5), put(0)}, round, tail),
+	}
+}
+
 func genSched(r *rng, id int) *c17Case {
 	cs := &c17Case{ID: id, Kind: "sched", Workers: 1 + r.intn(4)}
 	n := 1 + r.intn(8)
+	holdRound := -1
+	if r.chance(1, 2) {
+		// one of the rounds happens with the main storage blocked for 2-3 ticks
+		if n < 3 {
+			n += 3
+		}
+		holdRound = 0
+	}
 	nbig := r.intn(n + 1)
 	if r.chance(1, 5) {
 		nbig = n
@@ -243,14 +312,25 @@ func genSched(r *rng, id int) *c17Case {
 	cs.Payload = distinctPayloads(r, n, small, big, nbig)
 	genParams(r, cs, small, big)
 	rounds := 1 + r.intn(3)
+	if holdRound >= 0 {
+		holdRound = r.intn(rounds)
+	}
 	cs.Script = append(cs.Script, op{T: "sleep", Ms: 500})
 	for k := 0; k < rounds; k++ {
 		np := 1 + r.intn(n+2)
+		if k == holdRound {
+			np = 1 + r.intn(3) // leave objects to arrive while the storage is blocked
+		}
 		for j := 0; j < np; j++ {
 			cs.Script = append(cs.Script, op{T: "put", O: r.intn(n)})
 		}
 		if r.chance(1, 6) {
 			cs.Script = append(cs.Script, op{T: "del", O: r.intn(n)})
+		}
+		if k == holdRound {
+			cs.Script = append(cs.Script, op{T: "obs"})
+			holdEpisode(r, cs, n, 2+r.intn(2))
+			continue
 		}
 		if r.chance(1, 6) {
 			// ticks of the new cache are at +1s from now: re-align the observation points
@@ -334,6 +414,18 @@ func genProp(r *rng, id int) *c17Case {
 			}
 			cs.Script = append(cs.Script, op{T: "failseq", Os: fsq})
 		}
+		if r.chance(2, 5) {
+			// the main storage blocks for a few ticks while objects keep coming (rounds begin with batches in flight),
+			// then answers according to the policy of that moment
+			cs.Script = append(cs.Script, op{T: "hold"}, op{T: "sleep", Ms: 500 + r.intn(2)*1000}, op{T: "obs"})
+			for j := 0; j < 1+r.intn(2); j++ {
+				for i := 0; i < 1+r.intn(3); i++ {
+					cs.Script = append(cs.Script, op{T: "put", O: r.intn(n)})
+				}
+				cs.Script = append(cs.Script, op{T: "sleep", Ms: 1000 + r.intn(2)*1000}, op{T: "obs"})
+			}
+			cs.Script = append(cs.Script, op{T: "release"})
+		}
 		cs.Script = append(cs.Script, op{T: "sleep", Ms: 500 + r.intn(3)*1000}, op{T: "obs"})
 		if r.chance(1, 2) {
 			cs.Script = append(cs.Script, op{T: "sleep", Ms: 3000 + r.intn(9000)}, op{T: "obs"})
@@ -343,7 +435,7 @@ func genProp(r *rng, id int) *c17Case {
 		}
 	}
 	// writes stopped; storage accepts writes from now on
-	cs.Script = append(cs.Script, op{T: "heal"}, op{T: "obs"})
+	cs.Script = append(cs.Script, op{T: "heal"}, op{T: "release"}, op{T: "obs"})
 	for k := 0; k < 3; k++ {
 		cs.Script = append(cs.Script, op{T: "sleep", Ms: 11500}, op{T: "obs"})
 	}
@@ -378,7 +470,8 @@ func c17Main(args []string) {
 	}
 	r := &rng{s: seed*0x100000001b3 + 17}
 	var cases []*c17Case
-	for i := 0; i < nSched; i++ {
+	cases = append(cases, fixedHoldCases(0)...)
+	for i := len(cases); i < nSched; i++ {
 		cases = append(cases, genSched(r, len(cases)))
 	}
 	for i := 0; i < nAbort; i++ {
